@@ -368,7 +368,7 @@ func searchC03(o *Opts) {
 func searchC16(o *Opts) {
 	res := NewResult("C16", "listing", o.Seed, o.Tier)
 	res.Rule = "random collections and filters; all (offset, limit) in [0, n+2]^2 for n <= 12, sampled above (incl. offsets beyond the end, limits larger than the collection, negative values); " +
-		"implementation listing vs the Lean listing loop and vs the slice [offset, offset+limit) of the full listing; distinct = distinct (collection, filter, offset, limit)"
+		"implementation listing vs the Lean listing loop and vs the slice [offset, offset+limit) of the full listing; then, on the same open collection, three rounds of removals, additions of new ids (count-preserving among them) and a metadata update, each followed by a full listing and a page; distinct = distinct (collection, filter, offset, limit)"
 	ncoll := 120
 	if o.Tier == "thorough" {
 		ncoll = 1200
@@ -446,7 +446,7 @@ func searchC16(o *Opts) {
 					pairs = append(pairs, [2]int{off, lim})
 				}
 			}
-			pairs = append(pairs, [2]int{-1, 2}, [2]int{1, -3})
+			pairs = append(pairs, [2]int{-1, 2}, [2]int{1, -3}, [2]int{0, math.MaxInt64}, [2]int{2, math.MaxInt64}, [2]int{1, 1 << 40}, [2]int{math.MaxInt64, 1})
 		} else {
 			for k := 0; k < 60; k++ {
 				pairs = append(pairs, [2]int{rng.Intn(len(ids) + 5), rng.Intn(len(ids) + 5)})
@@ -489,11 +489,83 @@ func searchC16(o *Opts) {
 				lo = len(fullIDs)
 			}
 			hi := len(fullIDs)
-			if ml > 0 && lo+ml < hi {
+			if ml > 0 && ml < hi-lo {
 				hi = lo + ml
 			}
 			if strings.Join(got, ",") != strings.Join(fullIDs[lo:hi], ",") {
 				res.Violate("impl-failure", "C16/page-not-slice", fmt.Sprintf("page (offset %d, limit %d) = %v, slice of the full listing %v = %v", off, lim, got, fullIDs, fullIDs[lo:hi]), replay)
+			}
+		}
+		// the same open collection after later operations: a listing has been served, now the set of live ids changes
+		// (also with the number of documents unchanged: k removed, k new ones added), metadata changes, and the listing is
+		// asked again — every accepted live id once, current metadata, pages still slices of the full listing
+		for round := 0; round < 3; round++ {
+			k := 1 + rng.Intn(3)
+			live := sc.ids()
+			var what []string
+			for j := 0; j < k && len(live) > 0; j++ {
+				x := rng.Intn(len(live))
+				sc.c.VerifRemoveDocument(live[x])
+				delete(sc.docs, live[x])
+				what = append(what, fmt.Sprintf("remove %d", live[x]))
+				live = append(live[:x], live[x+1:]...)
+			}
+			for j := 0; j < k; j++ {
+				id := genID(rng, n*2+40)
+				for tries := 0; sc.docs[id] != nil && tries < 50; tries++ {
+					id = genID(rng, n*2+40+tries)
+				}
+				if sc.docs[id] != nil {
+					continue
+				}
+				sc.add(rng, id)
+				what = append(what, fmt.Sprintf("add %d", id))
+			}
+			if live = sc.ids(); len(live) > 0 && rng.Intn(2) == 0 {
+				id := live[rng.Intn(len(live))]
+				md := []byte(fmt.Sprintf(`{"v":%d,"tag":"w%d"}`, rng.Intn(5), rng.Intn(3)))
+				sc.c.UpdateDocument(id, md)
+				sc.docs[id].meta = md
+				what = append(what, fmt.Sprintf("update %d", id))
+			}
+			var want []string
+			for _, id := range sc.ids() {
+				if f.fn == nil || f.fn(id, sc.docs[id].meta) {
+					want = append(want, fmt.Sprint(id))
+				}
+			}
+			sort.Strings(want)
+			res.Evaluations++
+			res.Hit("listing-after-mutation")
+			replay := map[string]any{"items": its, "filter": f.name, "then": what}
+			lst := sc.c.Search(syzgydb.SearchArgs{Filter: f.fn})
+			var got []string
+			for _, r := range lst.Results {
+				got = append(got, fmt.Sprint(r.ID))
+				if rd := sc.docs[r.ID]; rd == nil || !bytes.Equal(rd.meta, r.Metadata) {
+					res.Violate("impl-failure", "C16/stale-metadata", fmt.Sprintf("after %v the listing entry %d does not carry the current metadata", what, r.ID), replay)
+				}
+			}
+			gs := append([]string{}, got...)
+			sort.Strings(gs)
+			if strings.Join(gs, ",") != strings.Join(want, ",") {
+				res.Violate("impl-failure", "C16/full-listing-wrong", fmt.Sprintf("after a listing had been served and then %v: full listing %v, accepted live ids %v", what, got, want), replay)
+			} else {
+				res.TracesValidated++
+			}
+			if len(got) > 1 {
+				off, lim := rng.Intn(len(got)), 1+rng.Intn(len(got))
+				hi := off + lim
+				if hi > len(got) {
+					hi = len(got)
+				}
+				var page []string
+				for _, r := range sc.c.Search(syzgydb.SearchArgs{Filter: f.fn, Offset: off, Limit: lim}).Results {
+					page = append(page, fmt.Sprint(r.ID))
+				}
+				if strings.Join(page, ",") != strings.Join(got[off:hi], ",") {
+					res.Violate("impl-failure", "C16/page-not-slice", fmt.Sprintf("after %v: page (offset %d, limit %d) = %v, slice of the full listing %v = %v", what, off, lim, page, got, got[off:hi]), replay)
+				}
 			}
 		}
 		if ci < 2 {
